@@ -272,6 +272,30 @@ func (w *World) reachModule(roots ...*ssa.Function) map[*ssa.Function]bool {
 				if mc, ok := in.(*ssa.MakeClosure); ok {
 					push(mc.Fn.(*ssa.Function))
 				}
+				// a module value converted to an interface may be called back by code we do not see (ANTLR runtime, reflect):
+				// every method of its type is reachable (RTA)
+				if mi, ok := in.(*ssa.MakeInterface); ok {
+					t := mi.X.Type()
+					ms := prog.MethodSets.MethodSet(t)
+					for i := 0; i < ms.Len(); i++ {
+						if mf := prog.MethodValue(ms.At(i)); mf != nil {
+							if strings.HasPrefix(ssaFuncPkgPath(mf), modPath) {
+								push(mf)
+							} else if mf.Synthetic != "" {
+								// promoted-method wrapper: follow it to the module method it forwards to
+								for _, bb := range mf.Blocks {
+									for _, ii := range bb.Instrs {
+										if cc, ok := ii.(ssa.CallInstruction); ok {
+											if callee := cc.Common().StaticCallee(); callee != nil {
+												push(callee)
+											}
+										}
+									}
+								}
+							}
+						}
+					}
+				}
 				for _, op := range in.Operands(nil) {
 					if fn, ok := (*op).(*ssa.Function); ok {
 						push(fn)
